@@ -100,39 +100,6 @@ Fixpoint cval (e : cexp) : cv :=
 Definition cq (z : complex) : cv := CV (qlit (re z)) (qlit (im z)).
 
 (* ------------------------------------------------------------------ *)
-(* the one place where today's code leaves exact arithmetic inside the
-   fragment: Complex::pow decides "integer exponent" by den == 1 without
-   reducing, so a negative base with an exponent such as 6/2 goes through
-   ln/exp.  [pow_unreduced x e] recognises exactly that situation on the
-   operands Complex::pow receives. *)
-Definition rat_value_is_integer (x : bigrat) : bool :=
-  match qlit x with Qmake _ d => Pos.eqb d 1 end.
-
-Definition pow_unreduced (oc : bool) (base expo : complex) : bool :=
-  match real_is_zero oc (im base), real_is_zero oc (im expo), real_is_neg oc (re base) with
-  | Ok true, Ok true, Ok true =>
-    rat_value_is_integer (re expo) && negb (rat_is_integer (re expo) && rat_is_integer (im expo))
-  | _, _, _ => false
-  end.
-
-Fixpoint known_C01 (oc : bool) (e : cexp) : bool :=
-  match e with
-  | CLit _ | CI => false
-  | CAdd a b | CSub a b | CMul a b | CDiv a b => known_C01 oc a || known_C01 oc b
-  | CNeg a | CReal a | CImag a | CConj a => known_C01 oc a
-  | CPow a b =>
-    known_C01 oc a || known_C01 oc b ||
-    match meval oc a, meval oc b with
-    | Ok x, Ok y =>
-      match v_into_unitless_complex oc y with
-      | Ok ex => pow_unreduced oc (fst x) ex
-      | _ => false
-      end
-    | _, _ => false
-    end
-  end.
-
-(* ------------------------------------------------------------------ *)
 (* where an admissible error comes from: some subterm of the expression *)
 
 Fixpoint exists_sub (P : cexp -> Prop) (e : cexp) : Prop :=
